@@ -293,3 +293,18 @@ package model
 //@   ensures [extended] forall i int :: 0 <= i && i < len(*alternatives) ==> extendedBy((*result)[i], (*alternatives)[i], newCriterion.Id) && fresh((*result)[i].Criteria)
 //@   loop 1 invariant [ctx] fresh(newAlts) && len(newAlts) == len(*alternatives)
 //@   loop 1 invariant [extended] forall i int :: 0 <= i && i < iter ==> extendedBy(newAlts[i], (*alternatives)[i], newCriterion.Id) && fresh(newAlts[i].Criteria)
+
+//@ func SortAlternativesByName
+//@   property C18 C09 C02
+//@   ensures [fresh_copy] fresh(result) && fresh(*result) && len(*result) == len(*alternatives)
+//@   ensures [members] forall k int :: 0 <= k && k < len(*result) ==> exists j int :: 0 <= j && j < len(*alternatives) && (*result)[k] == (*alternatives)[j]
+//@   ensures [all_present] forall j int :: 0 <= j && j < len(*alternatives) ==> exists k int :: 0 <= k && k < len(*result) && (*result)[k] == (*alternatives)[j]
+//@   ensures [sorted_by_id] forall i int, j int :: 0 <= i && i < j && j < len(*result) ==> !((*result)[j].Id < (*result)[i].Id)
+
+//@ func (*Criteria).countWithPrefix
+//@   property C18
+//@   ensures [nonneg] result >= 0
+//@   loop 1 invariant [nonneg] concealedCriteriaCount >= 0
+//@ func firstFreeName
+//@   property C18
+//@   ensures [name] result == (count == 0 ? name : name + itoa(count))
